@@ -191,6 +191,17 @@ class DefUse:
             last = (c or dc or "").rsplit("::", 1)[-1]
             follow = last in REF_ACCESSORS
             recv_only = True
+            if not follow and t.get("args") and t.get("atys"):
+                # type-based: `fn(&mut A, ..) -> &mut B` (or Option<&mut B>) with the receiver as its only reference
+                # parameter hands out a reference derived from the receiver (lifetime elision leaves no other source)
+                try:
+                    dty = self.body.locals[t["dest"]["l"]]["ty"] if not t["dest"]["p"] else ""
+                except Exception:
+                    dty = ""
+                refs = [ty for ty in t["atys"] if ty.startswith("&")]
+                if t["atys"][0].startswith("&mut") and len(refs) == 1 and (dty.startswith("&mut ") or dty.startswith("std::option::Option<&mut ")
+                                                                            or dty.startswith("core::option::Option<&mut ") or dty.startswith("Option<&mut ")):
+                    follow = True
         if follow:
             for a in (t["args"][:1] if recv_only else t["args"]):
                 self._operand(a, sl, seen, deep)
